@@ -54,7 +54,7 @@ class Iteration:
         p = self.item_pred()
         out = []
         for e in self.evs:
-            if e.kind != "call":
+            if e.kind != "call" or e.d.get("in_pred"):
                 continue
             if any(mentions(a, p) for a in e.args):
                 out.append(e)
